@@ -478,13 +478,127 @@ func trailingBody(c *mc.Ctx, item int) mc.Verdict {
 	return mc.Pass("trailing-bytes-ignored", true)
 }
 
+// payloadBody: what a segment contains has no influence on how it is decoded.
+// item = (type, four leading payload bytes from classes that mean something
+// elsewhere in the format, caller buffer size).
+var payloadClasses = []byte{'a', 'F', '1', 'g', 0x80, 0x03, 0x00, '\n'}
+var payloadBufs = []int{1, 6, 7, 8, 16, 600}
+
+func payloadBody(c *mc.Ctx, item int) mc.Verdict {
+	nc := len(payloadClasses)
+	typ := 1 + item%2
+	p := item / 2
+	var lead [4]byte
+	for i := range lead {
+		lead[i] = payloadClasses[p%nc]
+		p /= nc
+	}
+	bufSize := payloadBufs[p%len(payloadBufs)]
+	extra := c.Choose(3) // 0, 3 or 300 further payload bytes
+	payload := append([]byte{}, lead[:]...)
+	for i := 0; i < []int{0, 3, 300}[extra]; i++ {
+		payload = append(payload, payloadByte(i))
+	}
+	n := len(payload)
+	data := []byte{0x80, 1, 2, 0, 0, 0, 'A', 'B', 0x80, byte(typ), byte(n), byte(n >> 8), 0, 0}
+	data = append(data, payload...)
+	data = append(data, 0x80, 1, 1, 0, 0, 0, 'C', 0x80, 3)
+	want := []byte("AB")
+	for _, b := range payload {
+		if typ == 1 {
+			want = append(want, b)
+		} else {
+			want = append(want, hexdigits[b>>4], hexdigits[b&15])
+		}
+	}
+	want = append(want, 'C')
+	r := pfb.Decode(bytes.NewReader(data))
+	var got []byte
+	buf := make([]byte, bufSize)
+	var err error
+	for steps := 0; steps < 5000; steps++ {
+		var k int
+		k, err = r.Read(buf)
+		got = append(got, buf[:k]...)
+		if err != nil {
+			break
+		}
+	}
+	c.Step()
+	what := fmt.Sprintf("text AB, %s segment starting with %q (%d bytes), text C, end marker; caller buffer %d", []string{"", "text", "binary"}[typ], lead[:], n, bufSize)
+	if err != io.EOF || !bytes.Equal(got, want) {
+		v := mc.Fail("C14:payload-values:wrong-output", fmt.Sprintf("%s: ended with %v, output %q, expected %q", what, err, clipB(got), clipB(want)))
+		v.Render = what
+		return v
+	}
+	v := mc.Pass("decoded-whatever-the-payload", true)
+	if c.Render() {
+		v.Render = what + " → as expected"
+	}
+	return v
+}
+
+func clipB(b []byte) []byte {
+	if len(b) > 80 {
+		return b[:80]
+	}
+	return b
+}
+
+// bigBufferBody: "always filling the caller's buffer unless the stream ends",
+// for buffers larger than any internal chunk size.
+var bigBufs = []int{4096, 32767, 32768, 32769, 40000, 65536, 65537, 100000, 1 << 20}
+var bigSegs = []int{1000, 70000, 300000}
+
+func bigBufferBody(c *mc.Ctx, item int) mc.Verdict {
+	bufSize := bigBufs[item%len(bigBufs)]
+	n := bigSegs[(item/len(bigBufs))%len(bigSegs)]
+	typ := 1 + item/len(bigBufs)/len(bigSegs)
+	data := []byte{0x80, 1, 2, 0, 0, 0, 'A', 'B', 0x80, byte(typ), byte(n), byte(n >> 8), byte(n >> 16), 0}
+	want := []byte("AB")
+	for i := 0; i < n; i++ {
+		b := payloadByte(i)
+		data = append(data, b)
+		if typ == 1 {
+			want = append(want, b)
+		} else {
+			want = append(want, hexdigits[b>>4], hexdigits[b&15])
+		}
+	}
+	data = append(data, 0x80, 1, 1, 0, 0, 0, 'C', 0x80, 3)
+	want = append(want, 'C')
+	r := pfb.Decode(bytes.NewReader(data))
+	var got []byte
+	buf := make([]byte, bufSize)
+	what := fmt.Sprintf("text AB, %s segment of %d bytes, text C, end marker; caller buffer %d", []string{"", "text", "binary"}[typ], n, bufSize)
+	for steps := 0; steps < 5000; steps++ {
+		k, err := r.Read(buf)
+		got = append(got, buf[:k]...)
+		c.Step()
+		if err == nil && k < bufSize && len(got) < len(want) {
+			v := mc.Fail("C14:big-buffer:short-read", fmt.Sprintf("%s: Read returned %d bytes without an error at offset %d of %d: the buffer was not filled although the stream has not ended", what, k, len(got)-k, len(want)))
+			v.Render = what
+			return v
+		}
+		if err != nil {
+			if err != io.EOF || !bytes.Equal(got, want) {
+				v := mc.Fail("C14:big-buffer:wrong-output", fmt.Sprintf("%s: ended with %v after %d of %d bytes", what, err, len(got), len(want)))
+				v.Render = what
+				return v
+			}
+			break
+		}
+	}
+	return mc.Pass("filled", true)
+}
+
 func main() {
 	mc.Main(mc.Program{
 		Property: "C14",
 		Assumptions: []string{
 			"source readers return (0, nil) only in the many-short-segments family (permitted by io.Reader; never twice in a row)",
 			"io.EOF is a clean end of stream, not an error, for the purposes of 'gives an error'",
-			"payload bytes are a fixed pseudo-random sequence; the decoder's control flow does not depend on payload values",
+			"in the stream families payload bytes are a fixed pseudo-random sequence; that the decoder's control flow does not depend on payload values is checked by the family payload-values",
 		},
 		TrustedBase: []string{"io.ReadFull", "reflection-based dump of the decoder's scalar fields as state key"},
 		Families: func(tier string) []mc.Family {
@@ -532,6 +646,20 @@ func main() {
 				Body:   trailingBody,
 				Budget: budget,
 				Rule:   fmt.Sprintf("item = 0..8 bytes behind the end marker x kind %q x 5 streams (none, text3, bin2, text1+bin1, two empty segments) x caller buffer %v x source {full reads, one byte per read, io.EOF together with the last bytes}: the output is the segment contents and ends with io.EOF whatever follows the marker; non-trivial = all", trailKinds, manyBufs),
+			})
+			fams = append(fams, mc.Family{
+				Name:   "payload-values",
+				Items:  2 * 8 * 8 * 8 * 8 * len(payloadBufs),
+				Body:   payloadBody,
+				Budget: budget,
+				Rule:   fmt.Sprintf("item = segment type {text, binary} x the first four payload bytes from %q (hexadecimal digits of both cases, a non-hexadecimal letter, the marker byte, the end-marker type, NUL, line feed) x caller buffer %v; choice = 0, 3 or 300 further payload bytes; between two text segments, before the end marker; output must be the verbatim / hexadecimal contents: the decoding does not depend on what the payload looks like; non-trivial = all", payloadClasses, payloadBufs),
+			})
+			fams = append(fams, mc.Family{
+				Name:   "large-caller-buffers",
+				Items:  len(bigBufs) * len(bigSegs) * 2,
+				Body:   bigBufferBody,
+				Budget: budget,
+				Rule:   fmt.Sprintf("item = caller buffer %v x a segment of %v bytes x {text, binary}: every Read before the end of the stream must fill the buffer completely, the output must be exact; non-trivial = all", bigBufs, bigSegs),
 			})
 			return append(fams,
 				mc.Family{
